@@ -81,6 +81,18 @@ func runC11(c *core.Ctx) {
 	if t.Chance(1, 8) {
 		nframes = 120 + t.Intn(200) // far enough for the 7-bit -> 15-bit switch to happen on fragmented frames
 	}
+	jumbo := !wrap && t.Chance(1, 1500) // one frame that needs more than 65535 packets (or more than 64 KiB at a large MTU)
+	if jumbo {
+		nframes = 1 + t.Intn(3)
+		if t.Bool() {
+			mtu = 2 + t.Intn(2)
+			picID = false
+			pay.EnablePictureID = false
+		} else {
+			mtu = 1200
+		}
+		c.Probe("jumbo-frame")
+	}
 	if wrap {
 		nframes = 33000
 	}
@@ -90,7 +102,7 @@ func runC11(c *core.Ctx) {
 	fragmented, formChange := false, false
 	c.Logf("config=%s picid=%v mtu=%d frames=%d", c.Config, picID, mtu, nframes)
 	world := streamWorld
-	if wrap {
+	if wrap || jumbo {
 		// the id-continuity stream needs no wire: deliver each payload at once (FIFO, zero delay)
 		world = func(c *core.Ctx, n int, produce func(k int) [][]byte, deliver func(d datagram, buf []byte)) {
 			for k := 0; k < n && len(c.Viol) == 0; k++ {
@@ -107,6 +119,8 @@ func runC11(c *core.Ctx) {
 		var f []byte
 		if wrap {
 			f = []byte{byte(k)}
+		} else if jumbo && k == 0 {
+			f = t.Bytes(65536 + t.Intn(4000))
 		} else {
 			f = t.Bytes(nalSize(t, mtu, 1, []int{1, 3, 4}[t.Intn(3)])) // multiples of the fragment size for each descriptor size
 		}
@@ -250,6 +264,9 @@ func runC11Foreign(c *core.Ctx) {
 				return
 			}
 			c.Fault("truncate")
+			if cut%3 == 0 {
+				c.Guard("codecs.VP8Packet.Unmarshal", func() { _, _ = long.Unmarshal(trunc) }) // failed decodes are part of the history too
+			}
 			if e2 == nil {
 				c.Violate("foreign", "C11/foreign/truncated-accepted", "descriptor %x cut to %d of %d bytes was accepted", desc, cut, len(desc))
 				return
@@ -465,6 +482,9 @@ func runC12Foreign(c *core.Ctx) {
 				return
 			}
 			c.Fault("truncate")
+			if cut%3 == 0 {
+				c.Guard("codecs.VP9Packet.Unmarshal", func() { _, _ = long.Unmarshal(trunc) }) // failed decodes are part of the history too
+			}
 			if e2 == nil {
 				c.Violate("foreign", "C12/foreign/truncated-accepted", "descriptor %x cut to %d of %d bytes was accepted", desc, cut, len(desc))
 				return
